@@ -125,6 +125,7 @@ class Spec:
         self.files = {}       # pre-existing files: path -> content
         self.runto = None
         self.runto_mode = "N"     # N: RunTo(names)  R: RunToRegex  P: RunToProcs
+        self.log = None           # log level the program initialises before creating the workflow (wfrun only; the reference model has no logs)
 
     def add(self, node):
         self.nodes.append(node)
@@ -147,6 +148,8 @@ class Spec:
 
     def text(self, with_files=True):
         out = ["MAX %d" % self.max]
+        if self.log:
+            out.append("LOG " + self.log)
         for n in self.nodes:
             if n[0] == "SRC":
                 out.append("SRC %s" % hx(n[1]) + "".join(" " + hx(p) for p in n[2]))
